@@ -278,6 +278,7 @@ pub fn run(cfg: &Cfg) -> Stats {
     d.strategy("G2 well-formed language ids, random case/separator masks (proptest)", &gen::s_langid_bytes(), cfg.seed, "c19-g2", n, |b| b.clone());
     d.strategy("G3 near-miss mutations of well-formed language ids (proptest)", &gen::s_near_miss_langid(), cfg.seed, "c19-g3", n, |b| b.clone());
     d.strategy("G4 weighted raw bytes (proptest)", &gen::s_raw(), cfg.seed, "c19-g4", n / 3, |b| b.clone());
+    d.strategy("G2 long language ids, 5-16 variants, 60-150 bytes (proptest)", &gen::s_langid_long_bytes(), cfg.seed, "c19-g2long", n / 6, |b| b.clone());
     let uni = prop_oneof![
         "\\PC{0,12}",
         "[a-zA-Z]{2,3}([-_][a-zA-Z0-9]{1,8}){0,3}\\PC{0,2}",
